@@ -512,6 +512,9 @@ func (x *Run) doSelect(fr *Frame, st *State, ins *ssa.Select, outs *[]Outcome) [
 				s.events = append(s.events, Event{Name: "send", Args: []Val{ch, x.val(fr, s, sst.Send)}})
 			} else {
 				s.assume(implies(not(closed), ok.T))
+				if x.onlyClosedEverSignals(ch, sst.Chan.Type()) {
+					s.assume(closed)
+				}
 				// find which recv slot belongs to this state
 				slot := 2
 				for j := 0; j < idx; j++ {
@@ -522,6 +525,16 @@ func (x *Run) doSelect(fr *Frame, st *State, ins *ssa.Select, outs *[]Outcome) [
 				if slot < len(ret.Tup) {
 					s.events = append(s.events, Event{Name: "recv", Args: []Val{ch, ret.Tup[slot]}, Ret: ok})
 					s.assume(implies(not(ok.T), eq(ret.Tup[slot].T, x.d.zero(tup.At(slot).Type()))))
+				}
+			}
+		}
+		if idx < 0 {
+			// default branch: no case was ready; a receive from a closed channel
+			// is always ready, so none of the receive channels is closed
+			for _, sst := range ins.States {
+				if sst.Dir == types.RecvOnly {
+					ch := x.val(fr, s, sst.Chan)
+					s.assume(not(sel(x.arr(s, x.chClosedFor(ch, sst.Chan.Type())), ch.T)))
 				}
 			}
 		}
@@ -871,6 +884,30 @@ func (x *Run) loopMod(fr *Frame, lp *loop) *loopMod {
 	ms := newModSet()
 	ms.loopScan = true
 	seen := map[*ssa.Function]bool{}
+	// function-typed parameters bound to known closures in this frame: their
+	// effects are those closures' effects, not "unknown code"
+	{
+		allKnown := true
+		for _, prm := range fr.fn.Params {
+			if _, isSig := types.Unalias(prm.Type()).Underlying().(*types.Signature); !isSig {
+				continue
+			}
+			if v, ok := fr.env[prm]; ok && v.Clo != nil {
+				if !seen[v.Clo.Fn] {
+					seen[v.Clo.Fn] = true
+					x.modFunc(v.Clo.Fn, ms, seen, 1)
+				}
+			} else {
+				allKnown = false
+			}
+		}
+		if allKnown {
+			if ms.knownParams == nil {
+				ms.knownParams = map[*ssa.Function]bool{}
+			}
+			ms.knownParams[fr.fn] = true
+		}
+	}
 	for b := range lp.blocks {
 		for _, ins := range b.Instrs {
 			x.modInstr(ins, ms, seen, 0)
@@ -1041,4 +1078,22 @@ func containsSym(text, sym string) bool {
 		}
 		i = j + 1
 	}
+}
+
+// onlyClosedEverSignals: the channel value was loaded from a struct field on
+// which no statement of the loaded frp packages sends (and no send exists on a
+// non-field channel of its element type): a receive from it completes only
+// when the channel has been closed (A-CHANFIELD).
+func (x *Run) onlyClosedEverSignals(ch Val, t types.Type) bool {
+	ct, ok := types.Unalias(t).Underlying().(*types.Chan)
+	if !ok || x.sendable == nil || ch.Origin == "" || !strings.HasPrefix(ch.Origin, "H.") {
+		return false
+	}
+	if x.sendable["field:"+ch.Origin] || x.sendable[typeKey(ct.Elem())] {
+		return false
+	}
+	x.mu.Lock()
+	x.opaque["neversent:"+ch.Origin] = true
+	x.mu.Unlock()
+	return true
 }
